@@ -67,6 +67,7 @@ FAM = {
     "pm6sp_b1": {"method": "PM6_SP", "scf_eps": 1e-8, "scf_converger": [1], "scf_backward": 1},
     "am1_md": {"method": "AM1", "scf_eps": 1e-7, "scf_converger": [1], "elements": [0, 1, 6, 7, 8, 9]},
     "am1_esmd": {"method": "AM1", "scf_eps": 1e-7, "scf_converger": [1], "excited_states": {"n_states": 2, "method": "cis"}, "active_state": 1, "elements": [0, 1, 6, 8]},
+    "am1_sh": {"method": "AM1", "scf_eps": 1e-7, "scf_converger": [1], "excited_states": {"n_states": 2, "method": "cis", "tolerance": 1e-6}, "elements": [0, 1, 6, 8]},
     "am1_bad_active": {"method": "AM1", "scf_eps": 1e-7, "scf_converger": [1], "active_state": 1},
     "am1_uhf_pulay": {"method": "AM1", "scf_eps": 1e-7, "scf_converger": [2], "UHF": True},
     # PM6 with d-shell elements (S, Cl): process-global caches of d-orbital terms are in play
@@ -119,6 +120,8 @@ JOBS = {
     "md_lang_mixc": dict(fam="am1_md", mol="mixc", kind="md", eng="langevin"),
     "md_xlesmd_h2co": dict(fam="am1_esmd", mol="h2co", kind="md", eng="xl_esmd"),
     "md_excbasic_h2co": dict(fam="am1_esmd", mol="h2co", kind="md", eng="basic"),
+    "md_sh_h2co": dict(fam="am1_sh", mol="h2co", kind="md", eng="sh"),
+    "cis2_h2co": dict(fam="am1_sh", mol="h2co", kind="sp"),
     "opt_h2o": dict(fam="am1_md", mol="h2o", kind="opt"),
     "opt_nh3": dict(fam="am1_md", mol="nh3", kind="opt"),
     "md_basic_hcn": dict(fam="am1_md", mol="hcn", kind="md", eng="basic"),
@@ -261,6 +264,10 @@ class Session:
                     md = MDm.XL_BOMD(xl_bomd_params={"k": 5}, **common)
                 elif eng == "xl_esmd":
                     md = MDm.XL_ESMD(xl_bomd_params={"k": 5}, **common)
+                elif eng == "sh":
+                    import seqm.NonadiabaticDynamics as NDm
+
+                    md = NDm.SurfaceHoppingDynamics(initial_state=1, **dict(common, timestep=0.2))
                 else:
                     md = MDm.KSA_XL_BOMD(xl_bomd_params={"k": 4, "max_rank": 2, "err_threshold": 0.0, "T_el": 1500}, **common)
                 self.drivers[key] = (md, set(sp["elements"]), sp)
